@@ -75,6 +75,20 @@ def ret_terms(g):
     return out
 
 
+def decided_by(g, true_guards):
+    """the entry returns statically true/false on every exit, `true` only through one of true_guards and `false` only through
+    another edge of the same tests (the query result IS the tested condition, whatever the spelling: ==, matches!, match, if)"""
+    trues = set(g.exit_sids(lambda v: v == ('b', True)))
+    falses = set(g.exit_sids(lambda v: v == ('b', False)))
+    unknown = set(g.exit_sids(lambda v: v not in (('b', True), ('b', False))))
+    if not true_guards or not trues or not falses or unknown:
+        return False
+    te = set(edges(true_guards))
+    nodes = set((cid, bb) for cid, bb, _ in te)
+    comp = [gd.edge for gd in guard_edges(g) if (gd.ctx.id, gd.bb) in nodes and gd.edge not in te]
+    return not (g.reach(None, (), list(te)) & trues) and not (g.reach(None, (), comp) & falses)
+
+
 def check(P, rep):
     c = P.crates[CN]
     # R1 who-may-write
@@ -195,6 +209,12 @@ def check(P, rep):
                         f = msg_struct(m) if m is not None else None
                         if f == {'source_chain': sc, 'message_id': mid, 'source_address': sa, 'contract_address': ca, 'payload_hash': ph}:
                             ok = True
+
+        def full_hash_q(b):
+            m = approved_hash(b) if variant_name(b) == 'Approved' else None
+            return m is not None and msg_struct(m) == {'source_chain': sc, 'message_id': mid, 'source_address': sa, 'contract_address': ca, 'payload_hash': ph}
+        if not ok and decided_by(g, guard_sel(g, lambda c_: status_cmp(c_, 'eq', (sc, mid), full_hash_q))):
+            ok, rts = True, rts[:1]
         rep.check(ok and len(rts) == 1, 'C02.R4', 'is_message_approved', 'returns stored(key) == Approved(hash of the five parameters)', entry_id(g),
                   '; '.join(fmt(r) for r in rts)[:300])
         rep.check(not state_effects(g), 'C02.R4', 'is_message_approved:pure', 'query has no effect', entry_id(g))
@@ -211,6 +231,9 @@ def check(P, rep):
                 for x, y in ((a, b), (b, a)):
                     if status_of(x, (sc, mid)) and variant_name(y) == 'Executed':
                         ok = True
+        if not ok and decided_by(g, guard_sel(g, lambda c_: (c_[0] == 'is' and c_[1] == 'Executed' and status_of(c_[2], (sc, mid)))
+                                              or status_cmp(c_, 'eq', (sc, mid), lambda b: variant_name(b) == 'Executed'))):
+            ok, rts = True, rts[:1]
         rep.check(ok and len(rts) == 1, 'C02.R4', 'is_message_executed', 'returns stored(key) == Executed', entry_id(g),
                   '; '.join(fmt(r) for r in rts)[:300])
         rep.check(not state_effects(g), 'C02.R4', 'is_message_executed:pure', 'query has no effect', entry_id(g))
